@@ -24,7 +24,7 @@ ASSUMPTIONS = [
     "for untyped (dict) results the governing element is not known to the walker: a member may be found under its JSON name or under the Python name of any property with that JSON name in the tree",
     "values of declared-but-omitted properties are C05's subject (only their presence is tolerated here)",
 ]
-BUDGET = {"quick": 300, "thorough": 4000}
+BUDGET = {"quick": 550, "thorough": 5000}
 
 observe.register_formats()
 SCFG = sg.Cfg(depth=3, object_bias=True)
